@@ -129,13 +129,18 @@ package pattern
 // What the string library relies on (C15, gsub/gmatch stepping): a match starts
 // at or after the position asked for and lies inside the subject.  Assumed here
 // (the matcher's search loop is not under contract).
+// The position asked for lies inside the subject or just past its end: the
+// matcher slices the subject from there (callers must establish it).
 //@ func (*Pattern).MatchFromStart
 //@   trusted
+//@   requires 0 <= init && init <= len(s)
 //@   modifies nothing
+//@   ghost matched += 1
 //@   ensures len(result0) > 0 ==> init <= result0[0].start && result0[0].start <= result0[0].end && result0[0].end <= len(s)
 
 //@ func (*Pattern).Match
 //@   trusted
+//@   requires 0 <= init && init <= len(s)
 //@   modifies nothing
 //@   ensures len(result0) > 0 ==> init <= result0[0].start && result0[0].start <= result0[0].end && result0[0].end <= len(s)
 
